@@ -8,6 +8,7 @@ opaque calls).  phi nodes become gamma (select) trees over the branch
 conditions that gate their incoming edges.  Functions with a cycle in the CFG
 are reported as not loop-free (AnalysisBroken) - never guessed at.
 """
+import itertools
 import json
 import os
 import subprocess
@@ -1573,6 +1574,145 @@ def to_poly(t, ring, atomize=None, width=None, memo=None):
         return Poly.atom(x, mod)
 
     return rec(t)
+
+
+def _cond_literals(t):
+    """comparison literals occurring in the conditions of the selects of a term"""
+    lits, seen = [], set()
+
+    def lit(c):
+        if not isinstance(c, tuple):
+            return
+        if c[0] in ('not',):
+            lit(c[1])
+        elif c[0] in ('and', 'or'):
+            lit(c[1]); lit(c[2])
+        elif c[0] == 'op' and c[1] in ('and', 'or', 'xor'):
+            lit(c[3]); lit(c[4])
+        elif c[0] == 'sel':
+            lit(c[1]); lit(c[2]); lit(c[3])
+        elif c[0] == 'ci':
+            return
+        elif c not in seen:
+            seen.add(c)
+            lits.append(c)
+
+    def f(x):
+        if x[0] == 'sel':
+            lit(x[1])
+    walk(t, f)
+    return lits
+
+
+def _eval_cond(c, assign):
+    if c == TRUE or c == FALSE:
+        return c == TRUE
+    if c in assign:
+        return assign[c]
+    if c[0] == 'not':
+        v = _eval_cond(c[1], assign)
+        return None if v is None else not v
+    if c[0] in ('and', 'or') or (c[0] == 'op' and c[1] in ('and', 'or', 'xor')):
+        a, b = (c[1], c[2]) if c[0] in ('and', 'or') else (c[3], c[4])
+        o = c[0] if c[0] in ('and', 'or') else c[1]
+        x, y = _eval_cond(a, assign), _eval_cond(b, assign)
+        if x is None or y is None:
+            return None
+        return (x and y) if o == 'and' else (x or y) if o == 'or' else (x != y)
+    if c[0] == 'sel':
+        k = _eval_cond(c[1], assign)
+        if k is None:
+            return None
+        return _eval_cond(c[2] if k else c[3], assign)
+    return None
+
+
+def _resolve(t, assign, subst, memo):
+    """replace every select whose condition is decided by the assignment with the taken branch, and atoms by constants"""
+    if not isinstance(t, tuple):
+        return t
+    if t in memo:
+        return memo[t]
+    if t in subst:
+        r = subst[t]
+    elif t[0] == 'sel':
+        k = _eval_cond(t[1], assign)
+        if k is None:
+            r = ('sel',) + tuple(_resolve(x, assign, subst, memo) for x in t[1:])
+        else:
+            r = _resolve(t[2] if k else t[3], assign, subst, memo)
+    else:
+        r = tuple(_resolve(x, assign, subst, memo) if isinstance(x, tuple) else x for x in t)
+    memo[t] = r
+    return r
+
+
+def poly_cases(t, ring, limit=8, **kw):
+    """Path-sensitive canonicalisation.  A lookup may branch on its configuration ("if the off-diagonal entries are
+    zero, skip the product"): the selects of the term are resolved under every truth assignment of the comparison
+    literals in their conditions, and an equality literal `atom == constant` that is true in a case substitutes the
+    constant for the atom in that case.  Returns [(subst, polynomial)], one per feasible case, or None when the term
+    has more than `limit` literals.  Sound over the ring: the cases cover every input, and each case only uses facts
+    that hold in it."""
+    lits = _cond_literals(t)
+    if not lits:
+        return [({}, to_poly(t, ring, **kw))]
+    if len(lits) > limit:
+        return None
+    return [(subst, to_poly(_resolve(t, assign, subst, {}), ring, **kw)) for assign, subst in enum_cases(lits)]
+
+
+def enum_cases(lits):
+    """feasible truth assignments of comparison literals, each with the atom -> constant substitution it implies"""
+    EQ, NE = ('oeq', 'ueq', 'eq'), ('one', 'une', 'ne')
+    for bits in itertools.product((True, False), repeat=len(lits)):
+        assign = dict(zip(lits, bits))
+        subst, feasible = {}, True
+        for l, v in assign.items():
+            if l[0] == 'cmp' and ((l[1] in EQ and v) or (l[1] in NE and not v)):
+                a, b = l[2], l[3]
+                if b[0] not in ('ci', 'cf') and a[0] in ('ci', 'cf'):
+                    a, b = b, a
+                if b[0] in ('ci', 'cf') and a[0] not in ('ci', 'cf'):
+                    if a in subst and subst[a] != b:
+                        feasible = False
+                    subst[a] = b
+        for l, v in assign.items():     # a disequality assumed true contradicts a substitution that makes both sides equal
+            if feasible and l[0] == 'cmp' and ((l[1] in EQ and not v) or (l[1] in NE and v)):
+                if subst.get(l[2], l[2]) == subst.get(l[3], l[3]):
+                    feasible = False
+        if feasible:
+            yield assign, subst
+
+
+def merge_calls(calls, limit=8):
+    """Several query sites under mutually exclusive, jointly exhaustive path conditions (a fast path and a slow path)
+    are one query: returns a list of (assign, subst, call) or None when the conditions are not of that form."""
+    if len(calls) == 1 and calls[0].cond == TRUE:
+        return [({}, {}, calls[0])]
+    lits = _cond_literals(('x',) + tuple(('sel', c.cond, TRUE, FALSE) for c in calls))
+    if len(lits) > limit:
+        return None
+    out = []
+    for assign, subst in enum_cases(lits):
+        on = [c for c in calls if _eval_cond(c.cond, assign)]
+        if len(on) != 1 or any(_eval_cond(c.cond, assign) is None for c in calls):
+            return None
+        out.append((assign, subst, on[0]))
+    return out
+
+
+def poly_subst(p, subst, ring='real'):
+    """apply an atom -> constant substitution to a polynomial"""
+    if not subst:
+        return p
+    r = Poly({}, p.mod)
+    for mon, coef in p.t.items():
+        term = Poly.const(coef, p.mod)
+        for a in mon:
+            term = term * (to_poly(subst[a], ring) if a in subst else Poly.atom(a, p.mod))
+        r = r + term
+    return r
 
 
 # --------------------------------------------------------------------------
